@@ -70,3 +70,10 @@ outer:
 
 var _ = fmt.Sprint
 var _ explore.Params
+
+// parsePat splits a per-id pattern "<side><order><gapms>[@<startms>]": the second of the two calls is
+// issued gapms after the first, and the first startms after the scenario began (default 0).
+func parsePat(pat string) (side, order byte, gap, start time.Duration) {
+	g, st, _ := strings.Cut(pat[2:], "@")
+	return pat[0], pat[1], ms(g), ms(st)
+}
